@@ -20,12 +20,11 @@ import (
 	"pgregory.net/rapid"
 )
 
-// fpZeroLen is the fingerprint of the finding "Head/ReadHeader/ReadObject/GetStream
-// dereference a nil stream when the combined-file entry of the requested object
-// has length 0" (fstree/head.go readHeader returns a nil stream with an error and
-// both callers call stream.Close()).
-const fpZeroLen = "C41:fstree-head-nil-stream-on-zero-length-combined-entry"
-
+// History: this test found "Head/ReadHeader/ReadObject/GetStream dereference a
+// nil stream when the combined-file entry of the requested object has length 0"
+// (fixed in the repository by 3a6cd6b, known_findings.json
+// C41:fstree-head-nil-stream-on-zero-length-combined-entry). The class is
+// generated and asserted like any other.
 const (
 	combPrefixLen = 2 + oid.Size + 4
 )
@@ -82,7 +81,6 @@ func TestC41FSTreeCorrupt(t *testing.T) {
 		ev.Inconclusive("fstree init: %v", err)
 	}
 	defer fst.Close()
-	knownOpen := ev.IsOpen("C41", fpZeroLen)
 
 	rapid.Check(t, func(t *rapid.T) {
 		obj := genobj.Object(genobj.Opts{MaxPayload: rapid.SampledFrom([]int{200, 200, 30000}).Draw(t, "maxPld")}).Draw(t, "obj")
@@ -136,11 +134,8 @@ func TestC41FSTreeCorrupt(t *testing.T) {
 		if skipFull {
 			labels = append(labels, "huge-claimed-length(full-read-skipped)")
 		}
-		if zl && knownOpen {
-			// known finding: exclude the class by construction, keep searching
-			rec.Excluded(1)
-			rec.Known(fpZeroLen)
-			return
+		if zl {
+			labels = append(labels, "zero-length-target-entry")
 		}
 		changed := !bytes.Equal(file, stored)
 		rec.Case(changed, fp(file[:min(len(file), 2048)]), labels...)
@@ -162,12 +157,6 @@ func TestC41FSTreeCorrupt(t *testing.T) {
 			defer func() {
 				if r := recover(); r != nil {
 					panicked = true
-					if zl {
-						if rec.Known(fpZeroLen) {
-							return
-						}
-						t.Fatalf("PANIC in %s on a combined file whose entry for the requested object has length 0 (known class %s, not listed as open): %v; file %x", what, fpZeroLen, r, clip(file))
-					}
 					t.Fatalf("PANIC in %s: %v; labels %v; file (%d bytes) %x", what, r, labels, len(file), clip(file))
 				}
 			}()
@@ -192,7 +181,7 @@ func TestC41FSTreeCorrupt(t *testing.T) {
 		var hErr error
 		guard("Head", func() { hdr, hErr = fst.Head(addr) })
 		if hErr == nil && hdr == nil {
-			return // panicked (known class)
+			t.Fatalf("Head returned neither a header nor an error; labels %v file %x", labels, clip(file))
 		}
 		if fullErr == nil && canonical {
 			// the file still holds a canonical object: header-only read must work and agree
